@@ -90,53 +90,94 @@ fn block<F: std::future::Future>(f: F) -> F::Output {
 }
 
 #[derive(Clone, Debug)]
-pub enum Op { Set(u32), Sub, Poll(usize), Drop(usize) }
+pub enum Op { Set(u32), Sub, Poll(usize), Drop(usize), /// the last handle of the state is dropped
+    Close }
 
 fn run_tokio(ops: &[Op]) -> Vec<String> {
-    let mut st = zlink_tokio::notified::State::<u32, u32>::new(0);
+    let mut st = Some(zlink_tokio::notified::State::<u32, u32>::new(0));
     let mut subs: Vec<Option<zlink_tokio::notified::Stream<u32>>> = vec![];
     let mut meta: Vec<Option<Sub>> = vec![];
     let mut out = vec![];
     for op in ops {
         match op {
             Op::Set(v) => {
-                block(st.set(*v));
-                wake_report(&mut meta, &mut out);
+                if let Some(st) = st.as_mut() {
+                    block(st.set(*v));
+                    wake_report(&mut meta, &mut out);
+                }
             }
             Op::Sub => {
-                subs.push(Some(st.stream()));
-                meta.push(Some(Sub::new()));
+                if let Some(st) = st.as_mut() {
+                    subs.push(Some(st.stream()));
+                    meta.push(Some(Sub::new()));
+                }
             }
-            Op::Poll(k) => if let (Some(Some(s)), Some(Some(m))) = (subs.get_mut(*k), meta.get_mut(*k)) { out.push(format!("{k}:{}", poll_sub(s, m))) },
+            Op::Poll(k) => {
+                if let (Some(Some(s)), Some(Some(m))) = (subs.get_mut(*k), meta.get_mut(*k)) {
+                    let r = poll_sub(s, m);
+                    let ended = r == "end";
+                    out.push(format!("{k}:{r}"));
+                    // a stream that has ended is not polled again
+                    if ended {
+                        subs[*k] = None;
+                        meta[*k] = None;
+                    }
+                }
+            }
             Op::Drop(k) => if let Some(s) = subs.get_mut(*k) { *s = None; meta[*k] = None },
+            Op::Close => {
+                if st.take().is_some() {
+                    wake_report(&mut meta, &mut out);
+                }
+            }
         }
     }
     out
 }
 fn run_smol(ops: &[Op]) -> Vec<String> {
-    let mut st = zlink_smol::notified::State::<u32, u32>::new(0);
+    let mut st = Some(zlink_smol::notified::State::<u32, u32>::new(0));
     let mut subs: Vec<Option<zlink_smol::notified::Stream<u32>>> = vec![];
     let mut meta: Vec<Option<Sub>> = vec![];
     let mut out = vec![];
     for op in ops {
         match op {
             Op::Set(v) => {
-                block(st.set(*v));
-                wake_report(&mut meta, &mut out);
+                if let Some(st) = st.as_mut() {
+                    block(st.set(*v));
+                    wake_report(&mut meta, &mut out);
+                }
             }
             Op::Sub => {
-                subs.push(Some(st.stream()));
-                meta.push(Some(Sub::new()));
+                if let Some(st) = st.as_mut() {
+                    subs.push(Some(st.stream()));
+                    meta.push(Some(Sub::new()));
+                }
             }
-            Op::Poll(k) => if let (Some(Some(s)), Some(Some(m))) = (subs.get_mut(*k), meta.get_mut(*k)) { out.push(format!("{k}:{}", poll_sub(s, m))) },
+            Op::Poll(k) => {
+                if let (Some(Some(s)), Some(Some(m))) = (subs.get_mut(*k), meta.get_mut(*k)) {
+                    let r = poll_sub(s, m);
+                    let ended = r == "end";
+                    out.push(format!("{k}:{r}"));
+                    // a stream that has ended is not polled again
+                    if ended {
+                        subs[*k] = None;
+                        meta[*k] = None;
+                    }
+                }
+            }
             Op::Drop(k) => if let Some(s) = subs.get_mut(*k) { *s = None; meta[*k] = None },
+            Op::Close => {
+                if st.take().is_some() {
+                    wake_report(&mut meta, &mut out);
+                }
+            }
         }
     }
     out
 }
 
 fn ops_str(ops: &[Op]) -> String {
-    ops.iter().map(|o| match o { Op::Set(v) => format!("s{v}"), Op::Sub => "n".into(), Op::Poll(k) => format!("p{k}"), Op::Drop(k) => format!("d{k}") }).collect::<Vec<_>>().join(" ")
+    ops.iter().map(|o| match o { Op::Set(v) => format!("s{v}"), Op::Sub => "n".into(), Op::Poll(k) => format!("p{k}"), Op::Drop(k) => format!("d{k}"), Op::Close => "x".into() }).collect::<Vec<_>>().join(" ")
 }
 
 fn emit(em: &mut Emitter, ops: Vec<Op>) {
@@ -181,7 +222,32 @@ pub fn main(o: &Opts) {
                 _ => { ops.push(Op::Set(v)); v += 1; }
             }
         }
+        // one history in three: the state then goes away (after 0..2 more sets nobody has polled for) and every
+        // subscriber is polled until its stream ends
+        if rng.chance(1, 3) {
+            for _ in 0..rng.below(3) { ops.push(Op::Set(v)); v += 1; }
+            ops.push(Op::Close);
+            let mut order: Vec<usize> = (0..subs).collect();
+            for i in (1..order.len()).rev() { order.swap(i, rng.below(i + 1)); }
+            for k in order { ops.push(Op::Poll(k)); ops.push(Op::Poll(k)); if rng.chance(1, 3) { ops.push(Op::Poll(k)); } }
+        }
         emit(&mut em, ops);
+    }
+    // the state dropped right after a set, for every small prefix: sub, (set | poll)*, set, close, poll, poll
+    for code in 0..(1u32 << 4) {
+        let mut ops = vec![Op::Sub];
+        let mut v = 1;
+        for b in 0..4 {
+            if code & (1 << b) != 0 { ops.push(Op::Set(v)); v += 1; } else { ops.push(Op::Poll(0)); }
+        }
+        for with_set in [false, true] {
+            let mut o2 = ops.clone();
+            if with_set { o2.push(Op::Set(v)); }
+            o2.push(Op::Close);
+            o2.push(Op::Poll(0));
+            o2.push(Op::Poll(0));
+            emit(&mut em, o2);
+        }
     }
     // one-shot notifications
     for script in ["P N5 P P", "N7 P P", "P P D P", "D P", "P N1 P", "N2 P"] {
